@@ -18,7 +18,7 @@ func init() {
 		Meta: an.Meta{
 			Technique: "unwinding-completeness rule: the set of runtime state restored only on normal exits is computed by the pairing analysis over all evaluator functions and each member must be saved/restored by the try handler; guard facts and defer order on the handler's CFG",
 			Explanation: "(C13.restore) Let M be the runtime state that some construct reachable from Execute changes and puts back only by a plain (non-deferred) statement — computed on every run by the " +
-				"pairing analysis (today scope, context, content).  executeTry must load every member of M into a local before the body runs, and its recover handler must store each back from that " +
+				"pairing analysis (today scope, context, content; a counter brought back by a plain decrement counts too).  executeTry must load every member of M into a local before the body runs, and its recover handler must store each back from that " +
 				"local on every recovered path before the catch list runs.  A new non-deferred state change anywhere in the interpreter therefore creates a new obligation here.  (C13.buffer) the body " +
 				"runs with Writer = a fresh bytes.Buffer installed before the body with a deferred restore registered after the handler (so it runs first); the buffer is copied to the saved writer " +
 				"exactly at one site, only under the fact that nothing was recovered; the catch list runs only on the recovered path, once, with no recover around it.  (C13.catchvar) the catch " +
@@ -134,6 +134,7 @@ func runC13(c *an.Ctx) {
 
 	// saved locals in executeTry: local ← st.<field>, before the body call, as a top-level statement
 	saved := map[string]types.Object{}
+	savedIn := map[string]string{} // field → member of the struct local that carries it (saved := T{scope: st.scope, …})
 	for _, st := range try.Body.List {
 		if st.Pos() > bodyCall {
 			break
@@ -144,6 +145,22 @@ func runC13(c *an.Ctx) {
 				if fk != "" && throughRuntime(p, info, rhs) {
 					if _, dup := saved[fk]; !dup {
 						saved[fk] = an.ObjOf(info, id)
+					}
+				}
+				if obj := an.ObjOf(info, id); obj != nil {
+					if lit := savedStructLit(p, try, obj); lit != nil {
+						for _, el := range lit.Elts {
+							if kv, ok := el.(*ast.KeyValueExpr); ok {
+								if k, ok := kv.Key.(*ast.Ident); ok {
+									if efk := p.FieldKey(info, kv.Value); efk != "" && throughRuntime(p, info, kv.Value) {
+										if _, dup := saved[efk]; !dup {
+											saved[efk] = obj
+											savedIn[efk] = k.Name
+										}
+									}
+								}
+							}
+						}
 					}
 				}
 			}
@@ -191,8 +208,13 @@ func runC13(c *an.Ctx) {
 			if fk == "" || rhs == nil {
 				return
 			}
-			if id, ok := an.Unparen(rhs).(*ast.Ident); ok && saved[fk] != nil && an.ObjOf(hinfo, id) == saved[fk] {
+			if id, ok := an.Unparen(rhs).(*ast.Ident); ok && saved[fk] != nil && savedIn[fk] == "" && an.ObjOf(hinfo, id) == saved[fk] {
 				st.Set("rest:"+fk, "1")
+			}
+			if savedIn[fk] != "" {
+				if o, name, ok := savedStructField(p, handler, rhs, fk); ok && o == saved[fk] && strings.HasSuffix(name, "."+savedIn[fk]) {
+					st.Set("rest:"+fk, "1")
+				}
 			}
 		},
 		Call: func(x *an.Explorer, call *ast.CallExpr, st *an.State) {
